@@ -186,6 +186,35 @@ func subslices() {
 	ov = []Int{1, 2, 3, 4, 5}
 	copy(ov, ov[1:])
 	o("sub/copy-overlap-back", is(ov...))
+	strs := []string{"a", "b", "c", "d", "e"}
+	copy(strs[1:], strs)
+	o("sub/copy-overlap-fwd-string", strs[0]+strs[1]+strs[2]+strs[3]+strs[4])
+	strs = []string{"a", "b", "c", "d", "e"}
+	copy(strs, strs[2:])
+	o("sub/copy-overlap-back-string", strs[0]+strs[1]+strs[2]+strs[3]+strs[4])
+	i64s := []int64{1, 2, 3, 4, 5}
+	copy(i64s[2:], i64s)
+	o("sub/copy-overlap-fwd-int64", itoa(i64s[0])+itoa(i64s[1])+itoa(i64s[2])+itoa(i64s[3])+itoa(i64s[4]))
+	n1, n2, n3 := &P{a: 1}, &P{a: 2}, &P{a: 3}
+	ptrs := []*P{n1, n2, n3, nil}
+	copy(ptrs[1:], ptrs)
+	o("sub/copy-overlap-fwd-ptr", is(ptrs[0].a, ptrs[1].a, ptrs[2].a, ptrs[3].a))
+	ifs := []interface{}{Int(1), "x", Int(3), nil}
+	copy(ifs[1:], ifs[:3])
+	o("sub/copy-overlap-fwd-iface", itoa(int64(ifs[0].(Int)))+itoa(int64(ifs[1].(Int)))+ifs[2].(string)+itoa(int64(ifs[3].(Int))))
+	// the insert idiom: grow by one, shift the tail right, store
+	ins := []string{"alice", "bob", "carol", "dave"}
+	ins = append(ins, "")
+	copy(ins[2:], ins[1:])
+	ins[1] = "zed"
+	o("sub/insert-idiom", ins[0]+","+ins[1]+","+ins[2]+","+ins[3]+","+ins[4])
+	fl := []float64{1, 2, 3, 4}
+	copy(fl[1:], fl)
+	o("sub/copy-overlap-fwd-float", ftoa(fl[1])+ftoa(fl[2])+ftoa(fl[3]))
+	sa := [][2]Int{{1, 1}, {2, 2}, {3, 3}}
+	copy(sa[1:], sa)
+	sa[0][0] = 9
+	o("sub/copy-overlap-fwd-array-elem", is(sa[0][0], sa[1][0], sa[2][0]))
 	os := []P{{a: 1}, {a: 2}, {a: 3}}
 	copy(os[1:], os)
 	o("sub/copy-overlap-struct", is(os[0].a, os[1].a, os[2].a))
